@@ -1,12 +1,14 @@
 #!/usr/bin/env python3
 """Runs the quick checks against behaviour-preserving refactorings under /verif/benign/<id>/ (patch.diff + meta.json).
 
-  lib/run_benign.py [ids...] [--props C01,C02]
+  lib/run_benign.py [ids...] [--props=C01,C02]          BENIGN_JOBS=<n> patches in parallel (default 3)
 
-Each patch is applied in a scratch worktree of /repo; every claimed property's quick check (or the listed ones) runs with
-VERIF_REPO pointing there. A VIOLATION on such a tree is a false alarm of the machinery (or the refactoring is not
-behaviour preserving after all — the replay decides). Writes benign/RESULTS.json and prints a table."""
-import sys, os, json, subprocess, shutil, time
+Each patch is applied in a scratch worktree of /repo; the quick check of every claimed property whose harness packages
+depend on a changed file (lib/srcdigest.py; the others would run the very same binaries) runs with VERIF_REPO pointing
+there. A VIOLATION on such a tree is a false alarm of the machinery (or the refactoring is not behaviour preserving
+after all — the replay decides). Writes benign/RESULTS.json and prints a table."""
+import sys, os, json, subprocess, shutil, time, threading
+import concurrent.futures as cf
 ROOT = os.path.dirname(os.path.dirname(os.path.abspath(__file__)))
 BEN = os.path.join(ROOT, 'benign')
 sys.path.insert(0, os.path.join(ROOT, 'lib'))
@@ -23,10 +25,13 @@ def main():
         if a.startswith('--props='):
             props = a.split('=', 1)[1].split(',')
     from specs import SPECS
+    import srcdigest
     ids = args or sorted(d for d in os.listdir(BEN) if os.path.isdir(os.path.join(BEN, d)))
     rp = os.path.join(BEN, 'RESULTS.json')
     results = json.load(open(rp)) if os.path.exists(rp) else {}
-    for bid in ids:
+    lock = threading.Lock()
+
+    def one(bid):
         d = os.path.join(BEN, bid)
         wt = '/tmp/benignrun-%s' % bid
         sh(['git', '-C', '/repo', 'worktree', 'remove', '--force', wt])
@@ -35,24 +40,39 @@ def main():
         r = sh(['git', '-C', wt, 'apply', os.path.join(d, 'patch.diff')])
         if r.returncode != 0:
             print('%s: patch does not apply: %s' % (bid, r.stdout[-300:]))
-            results[bid] = {'applied': False}
+            res = {'applied': False}
         else:
             env = dict(os.environ, VERIF_REPO=wt)
             res = {'applied': True, 'checks': {}}
             for pid in (props or sorted(SPECS)):
+                try:
+                    ch, _ = srcdigest.changed_for(wt, pid)
+                except Exception:  # noqa: BLE001
+                    ch = ['?']
+                if not ch:
+                    res['checks'][pid] = {'exit': 0, 'violation_lines': [], 'skipped': 'no dependency changed'}
+                    continue
                 t0 = time.time()
                 c = sh([os.path.join(ROOT, 'check'), pid, '--tier', 'quick'], cwd=ROOT, env=env)
                 viol = [l for l in c.stdout.splitlines() if l.startswith('VIOLATION')]
+                notes = [l for l in c.stdout.splitlines() if l.startswith('NOTE:')]
                 summ = [l for l in c.stdout.splitlines() if 'tier=' in l][-1:]
-                res['checks'][pid] = {'exit': c.returncode, 'violation_lines': viol, 'wall_s': round(time.time() - t0, 1), 'summary': summ}
+                res['checks'][pid] = {'exit': c.returncode, 'violation_lines': viol, 'notes': [n[:200] for n in notes],
+                                      'wall_s': round(time.time() - t0, 1), 'summary': summ}
                 if c.returncode != 0:
-                    print('  %s %s: exit %d %s' % (bid, pid, c.returncode, viol[:1] or summ))
+                    print('  %s %s: exit %d %s' % (bid, pid, c.returncode, viol[:1] or summ), flush=True)
             res['alarms'] = sorted(p for p, v in res['checks'].items() if v['exit'] != 0)
-            results[bid] = res
-            print('%-10s %s' % (bid, 'NO ALARM (%d checks)' % len(res['checks']) if not res['alarms'] else 'ALARM in ' + ', '.join(res['alarms'])))
+            ran = sum(1 for v in res['checks'].values() if not v.get('skipped'))
+            print('%-10s %s' % (bid, ('NO ALARM (%d checks run, %d unaffected)' % (ran, len(res['checks']) - ran))
+                                if not res['alarms'] else 'ALARM in ' + ', '.join(res['alarms'])), flush=True)
         sh(['git', '-C', '/repo', 'worktree', 'remove', '--force', wt])
         shutil.rmtree(wt, ignore_errors=True)
-        json.dump(results, open(rp, 'w'), indent=1, sort_keys=True)
+        with lock:
+            results[bid] = res
+            json.dump(results, open(rp, 'w'), indent=1, sort_keys=True)
+
+    with cf.ThreadPoolExecutor(max_workers=int(os.environ.get('BENIGN_JOBS', '3'))) as ex:
+        list(ex.map(one, ids))
 
 
 if __name__ == '__main__':
